@@ -652,6 +652,12 @@ func (f *Frame) finishBlock(b *ssa.BasicBlock) {
 	for i, s := range b.Succs {
 		ep := f.enc.definePath(f.sym(fmt.Sprintf("E%d_%d", b.Index, s.Index)), And(f.outPath[b], f.edgeCond(b, i)))
 		f.edgePred[[2]int{b.Index, s.Index}] = ep
+		// an edge that leaves a loop (normal end, break, return from inside): the loop's exit clauses are obligations here
+		for _, li := range f.inLoop[b] {
+			if li.spec != nil && len(li.spec.Exits) > 0 && !li.blocks[s] && s != li.header {
+				f.exitEdge(b, s, li, ep)
+			}
+		}
 		if s.Dominates(b) {
 			f.backEdge(b, s, ep)
 		}
@@ -912,6 +918,22 @@ func clauseName(c *Clause, k int) string {
 }
 
 // backEdge: assert invariant and measure decrease on edge from->header.
+// exitEdge: class `inv` obligations for the `exit` clauses of a loop on one edge leaving it. Names resolve as in the
+// loop body at the end of block from; the loop's header phis denote their values at the head of the iteration being left.
+func (f *Frame) exitEdge(from, to *ssa.BasicBlock, li *loopInfo, ep T) {
+	savedPath, savedAcc := f.path, f.pathAcc
+	f.path, f.pathAcc = ep, nil
+	tag := fmt.Sprintf("b%d", from.Index)
+	for k, ec := range li.spec.Exits {
+		tr := f.translator(from, li.phiSyms, f.st, li)
+		c := tr.boolExpr(ec.Expr)
+		o := f.obligeNamed("inv", fmt.Sprintf("loop%d.exit.%s@%s", li.ordinal, clauseName(ec, k), tag), token.NoPos, c, ec.Props)
+		f.addUses(o, li.spec.Uses, tr)
+		f.unassumeLast()
+	}
+	f.path, f.pathAcc = savedPath, savedAcc
+}
+
 func (f *Frame) backEdge(from, h *ssa.BasicBlock, ep T) {
 	li := f.loops[h]
 	if li == nil {
